@@ -24,6 +24,7 @@ META = {
     "assumptions": ["the user's comparison / key function is a consistent total order"],
     "not_decided": "arithmetic on positions (new_index - 1 after removing the old element) and that the buffer is sorted at all times",
 }
+META["explanation"] += ' R11.4 also requires the tag shift to accompany every structural change of the sorted buffer on every path of the arm (no fast path that inserts and returns before the shift).'
 
 STRUCT = {"append", "clear", "push_front", "push_back", "pop_front", "pop_back", "insert", "set", "remove", "truncate", "retain", "split_off", "slice", "extend"}
 TRANSLATOR = "vector::sort::handle_diff_and_update_buffered_vector"
@@ -40,7 +41,10 @@ def run(ctx):
     if f is None:
         ctx.missing("R11.1", "sort translator (role: the free function of vector::sort with a VectorDiff switch)")
         return
-    b = f.built
+    ctx.role(f, "role:sort-translator")
+    b = inl(F, f) or f.built   # arms moved into private helpers (handle_append, ...) are analysed in place
+    if not diff_switches(b):
+        b = f.built
     sw, info = diff_switches(b)[0]
     arms, multi = arm_targets(info)
     missing = [v for v in VARIANTS if v not in arms]
@@ -182,9 +186,17 @@ def mirror(ctx, f, b, sw, target, v, buf):
     problems = []
     CAP = 3
 
-    def transfer(blk, q):
-        if q == "OVER":
+    agg_blocks = {}
+    for loc, s_ in b.iter_stmts(sorted(region)):
+        if s_["k"] == "assign" and s_["rv"]["k"] == "agg" and (s_["rv"].get("adt") or "").endswith("::VectorDiff"):
+            agg_blocks.setdefault(loc[0], set()).add(loc)
+
+    def transfer(blk, st):
+        if st == "OVER":
             return ["OVER"]
+        q, seen_aggs = st
+        if blk in agg_blocks:
+            seen_aggs = frozenset(seen_aggs | agg_blocks[blk])
         if blk in ev:
             kind, x, t = ev[blk]
             if kind == "op":
@@ -192,6 +204,14 @@ def mirror(ctx, f, b, sw, target, v, buf):
                 if len(q) > CAP:
                     return ["OVER"]
             else:
+                # a pushed value built in several branches (`match pos { 0 => PopFront, .. }`): on this path it is the
+                # aggregate(s) the path went through
+                cands = diff_agg_stmts(b, t["args"][1])
+                onpath = [(aloc, arv) for aloc, arv in cands if aloc in seen_aggs]
+                if onpath:
+                    x = [arv["variant"] for _, arv in onpath]
+                    cands = onpath
+                seen_aggs = frozenset()
                 if not q:
                     problems.append(("unmirrored-push", blk, x, None))
                 else:
@@ -205,7 +225,7 @@ def mirror(ctx, f, b, sw, target, v, buf):
                         if m in ("insert", "set", "remove") and "args" in ot:
                             oi = strip(b.expr_of_op(ot["args"][1]))
                             oroot = root_local(b, ot["args"][1])
-                            for aloc, arv in diff_agg_stmts(b, t["args"][1]):
+                            for aloc, arv in cands:
                                 if "index" in arv["fields"]:
                                     iop = arv["ops"][arv["fields"].index("index")]
                                     pi = strip(b.expr_of_op(iop))
@@ -214,12 +234,12 @@ def mirror(ctx, f, b, sw, target, v, buf):
                                     if not same:
                                         problems.append(("operand", blk, arv["variant"], (m, oblk, fmt(oi, 3), fmt(pi, 3))))
                     q = rest
-        return [q]
-    ins, outs = forward_states(b, (), transfer, start=target)
+        return [(q, seen_aggs)]
+    ins, outs = forward_states(b, ((), frozenset()), transfer, start=target)
     finals = set()
     for rb in b.return_blocks():
-        for q in outs.get(rb, ()):
-            finals.add(q)
+        for st in outs.get(rb, ()):
+            finals.add(st if st == "OVER" else st[0])
     where = b.line_at((target, 0))
     seen = set()
     bad = False
@@ -268,7 +288,7 @@ def tag_closures(F, f, b, region):
                     adds = find_all(e, lambda y: y[0] == "bin" and re.match(r"(Add|Sub)", y[1]))
                     if adds and is_const_int(adds[0][3], 1):
                         facts = conds.bare(conds.dominating_facts(cb, cloc[0]))
-                        out.append((c, "+" if adds[0][1].startswith("Add") else "-", facts, cloc))
+                        out.append((c, "+" if adds[0][1].startswith("Add") else "-", facts, cloc, loc[0]))
     return out
 
 
@@ -286,8 +306,23 @@ def tag_shifts_inline(f, b, region):
         adds = find_all(e, lambda y: y[0] == "bin" and re.match(r"(Add|Sub)", y[1]))
         if adds and is_const_int(adds[0][3], 1) and contains(b.expr_of_local(s["place"]["l"]), lambda y: y[0] == "call" and ecall_matches(y, r"::iter_mut$|IterMut|Iterator>?::next$")):
             facts = [x for (ss, tt, x) in conds.dominating_facts(b, loc[0]) if ss in region]
-            out.append((f, "+" if adds[0][1].startswith("Add") else "-", facts, loc))
+            out.append((f, "+" if adds[0][1].startswith("Add") else "-", facts, loc, loop_entry(b, loc[0])))
     return out
+
+
+def loop_entry(b, blk):
+    """the block through which the innermost loop around blk is entered (executed whenever the loop is reached, even for
+    zero iterations); blk itself when it is not in a loop."""
+    from .adapters import natural_loops
+    inner = None
+    for h, blks in natural_loops(b):
+        if blk in blks and (inner is None or len(blks) < len(inner[1])):
+            inner = (h, blks)
+    if inner is None:
+        return blk
+    h, blks = inner
+    outside = [p for p in b.pred[h] if p not in blks and p in b.reachable()]
+    return outside[0] if len(outside) == 1 else h
 
 
 def tags(ctx, f, b, sw, target, v, buf):
@@ -304,9 +339,18 @@ def tags(ctx, f, b, sw, target, v, buf):
     if len(tcs) != 1:
         ctx.violated("R11.4", f, "tag-shift:%s" % v, where, "arm %s shifts the source-index tags %d times (must be exactly once, by %s1)" % (v, len(tcs), sign))
         return
-    c, s, facts, cloc = tcs[0]
-    cb = c.built
+    c, s, facts, cloc, site = tcs[0]
+    cb = c.built if c is not f else b
     probs = []
+    # the shift accompanies every structural change of the sorted buffer: no path through the arm changes the buffer
+    # (inserts / removes an entry) and leaves without having shifted the other entries' tags
+    for oblk, ot in b.calls(IMBL, blocks=sorted(region)):
+        if imbl_method(ot) in STRUCT and is_buf(b, ot["args"][0], buf) and oblk != site:
+            before = oblk in b.reachable_from(target, avoid_blocks=[site])
+            after = any(b.term(x)["k"] == "return" for x in b.reachable_from(oblk, avoid_blocks=[site]))
+            if before and after:
+                probs.append("a path through the arm changes the sorted buffer with `%s` (bb%d) and returns without shifting the tags of the other entries (bb%d is bypassed): their recorded source indices are stale from then on" % (imbl_method(ot), oblk, site))
+                break
     if s != sign:
         probs.append("shifts by %s1 instead of %s1" % (s, sign))
     cmps = [x for x in facts if x[0] == "cmp"]
